@@ -14,6 +14,32 @@ LEVEL = {}
 # proof module per property when it is not LadimProofs/<id>.lean
 MODULES = {"C17": "C17Measure", "C20": "C20Measure", "C02": "C02Iso", "C12": "C12Fjord", "C06": "C06Main", "C13": "C13Buffer", "C05": "C05Rounded", "C19": "C19Weighted"}
 
+# bridge modules per property (LadimProofs/Bridge/<name>.lean): hand-written model function = generated window of the
+# current source; re-proved on every run
+BRIDGES = {
+    "C05": ["Mixing", "Band", "SinkBury", "Swim", "Seq"],
+    "C07": ["Age", "Stage", "Seq"],
+    "C08": ["SinkBury", "Settle", "Seq"],
+    "C09": ["Stage", "Develop"],
+    "C11": ["Reseed"],
+    "C16": ["Swim"],
+    "C20": ["Mixing", "Seq"],
+}
+BRIDGE_THEOREMS = {
+    "Mixing": ["chem_reflect", "chem_diffuse_const", "chem_labolle_substep", "chem_labolle_time", "chem_horzdiff_K",
+               "chem_horzdiff_step", "sed_mix_const", "sed_mix_bounded_linear", "mine_mix", "sed_ladis", "shrimp_mix",
+               "sandeel_reflexive", "eel_reflexive", "sandeel_vertical", "eel_vertical"],
+    "Band": ["lice_Z", "egg_Z", "egg_update_z", "larvae_Z", "saithe_Z", "chem_clamp", "chem_advect"],
+    "SinkBury": ["sed_sink", "mine_sink", "mine_sink_vadv", "sed_bury", "mine_bury"],
+    "Swim": ["lice_W", "shrimp_migrate"],
+    "Age": ["lice_age", "lice_alive", "egg_age", "chem_kill_old", "sed_kill_old", "mine_kill_old", "vps_update"],
+    "Stage": ["larvae_age", "saithe_age", "shrimp_stage"],
+    "Develop": ["larvae_weight", "saithe_weight"],
+    "Settle": ["sed_ustar", "mine_ustar", "sed_shear", "mine_shear", "sed_resuspend"],
+    "Reseed": ["chem_reposition", "chem_coastal", "mine_reposition"],
+    "Seq": ["lice_update", "sed_update_seq", "mine_update_seq", "chem_update_seq"],
+}
+
 OBLIGATIONS = {
     "C05": [
         "C05.reflect_band", "C05.reflectPred_band", "C05.reflect_disp_band", "C05.advect_band",
@@ -199,3 +225,7 @@ OBLIGATIONS = {
         "C11.reseed_binary64_touches_upper_border", "C11.reseed_binary64_second_largest_draw_too", "C11.reseed_binary64_smaller_draw_inside",
     ],
 }
+
+for _p, _bs in BRIDGES.items():
+    for _b in _bs:
+        OBLIGATIONS[_p] = OBLIGATIONS[_p] + ["Bridge.%s" % _t for _t in BRIDGE_THEOREMS[_b]]
